@@ -22,7 +22,7 @@ STREAM_ORDER = ['faults', 'chart', 'cfg']
 RULE = ('the stored document is a valid generated statechart description dumped to YAML; the simulator corrupts it with the structural faults '
         'the property lists (duplicate state name; dangling transition target; transitions on a final / history state; history state under an '
         'orthogonal state or as root; initial naming a sibling-less non-child, a grandchild, an unknown state; memory naming itself, a '
-        'non-sibling, an unknown state; unknown key at statechart / state / transition / contract level; unknown type; unknown priority word; '
+        'non-sibling, an unknown state; unknown key at statechart / state / transition / contract level; unknown type (a word, the empty string, another spelling of a known type, a boolean); unknown priority word; '
         'both states and parallel states; missing name; missing root state; missing statechart) at EVERY applicable position for single faults '
         '(thorough; 30 drawn positions in quick) plus drawn combinations of 2-3 faults; in a quarter of the runs every document is handed over as a file (import_from_yaml(filepath=...)); a faulted document must raise StatechartError and '
         'nothing else, the unfaulted document must be accepted and pass an independent structural audit. non-trivial = one (document, fault '
@@ -86,6 +86,10 @@ def fault_list(doc):
         out.append(('unknown-state-key', n, lambda d, get=get: get(d).__setitem__('colour', 'red')))
         out.append(('unknown-state-key-without-value', n, lambda d, get=get: get(d).__setitem__('colour', None)))
         out.append(('unknown-type', n, lambda d, get=get: get(d).__setitem__('type', 'choice')))
+        # other things that are not one of the three known types: the empty string, another spelling, a boolean
+        out.append(('unknown-type-empty', n, lambda d, get=get: get(d).__setitem__('type', '')))
+        out.append(('unknown-type-other-spelling', n, lambda d, get=get, k=kind: get(d).__setitem__('type', 'Final' if k != 'history' else 'history')))
+        out.append(('unknown-type-boolean', n, lambda d, get=get: get(d).__setitem__('type', False)))
         if kind in ('final', 'history'):
             out.append(('transition-on-%s-state' % kind, n, lambda d, get=get, tgt=names[0]: get(d).__setitem__('transitions', [{'target': tgt, 'event': 'ea'}])))
         if kind in ('final', 'history'):
